@@ -564,6 +564,9 @@ def do_search(prop, spec, args, jobs, scratch):
         print(f"  {small.get('message')}")
         print(f"VIOLATION property={prop} replay={path}")
 
+    # observations that are not violations of the property (never change the exit code)
+    for n, c in agg.notes.most_common(5):
+        print(f"NOTE: property={prop} {n} (x{c})")
     if not args.no_evidence:
         write_evidence(prop, spec, tier, args.seed, agg, wall, search_wall, det, extra,
                        len(reported), known_hits, jobs)
@@ -633,6 +636,7 @@ class Aggregate:
         self.run_wall = 0.0
         self.configs = collections.Counter()
         self.extra_counts = collections.Counter()
+        self.notes = collections.Counter()
 
     def add(self, res):
         if res.get("status") == "harness_error":
@@ -658,6 +662,8 @@ class Aggregate:
         self.run_wall += float(res.get("wall_s") or 0)
         if res.get("config_class"):
             self.configs[res["config_class"]] += 1
+        for n in res.get("notes") or []:
+            self.notes[n] += 1
         if res.get("plan") is not None and len(self.samples) < 3 and res.get("nontrivial"):
             self.samples.append({"seed": res.get("seed"), "plan": res.get("plan")})
 
@@ -690,6 +696,7 @@ def write_evidence(prop, spec, tier, seed, agg, wall, search_wall, det, extra,
     for k, v in extra.items():
         if k not in ("evaluations", "distinct_nontrivial", "samples"):
             cov[k] = v
+    cov["notes_not_violations"] = dict(agg.notes.most_common(10))
     doc = {
         "property_id": prop,
         "tier": tier,
